@@ -21,3 +21,15 @@ package codegen
 //@   property C09
 //@   ensures* user.owned.file: result != nil ==> result.SkipExist
 //@   modifies all
+
+// ---- generated output does not depend on map iteration order (C09) --------------------------------
+// Every function of this package that ranges over a map is either proved independent of the iteration order
+// (commutativity of the loop body, or keys collected and sorted before use) or listed here as NOT proved;
+// a range over a map appearing anywhere else in the package is reported.
+//@ maprange-census property C09: buildErrorsData=1
+//@ func extractCookies$1
+//@   opt maprange deterministic
+//@   opt inline none
+//@   opt loopframes none
+//@   property C09
+//@   modifies all
